@@ -44,9 +44,10 @@ def build_world(prop, plan):
     maxv = {}
     for u, url in enumerate(plan['urls']):
         nver = url.get('nver') or (len(url.get('bumps', [])) + 1)
+        fv = url.get('first_ver', 1)
         maxv[u] = nver
         scn.line('')  # keep layout readable
-        for v in range(1, nver + 1):
+        for v in range(fv, fv + nver):
             size = url['sizes'][(v - 1) % len(url['sizes'])]
             key = vkey(u, v)
             cond_h = hc.response_head(304, [h for h in origin_headers(url, u, v) if h[0] not in (b'Content-Type',)] + [(b'X-Sim-Upd', b'r%d' % v)])
@@ -77,12 +78,12 @@ def build_world(prop, plan):
                 r.add('send %s pace 0 %d' % (enc.token(), url['body_pace']))
             else:
                 r.add('send %s' % enc.token())
-            if url.get('bump_on_serve') and v < nver:
+            if url.get('bump_on_serve') and v < fv + nver - 1:
                 r.add('set cur%d %d' % (u, v + 1))   # every full response is a unique version
     adm = scn.client('admin', noready=True)
     for u in range(len(plan['urls'])):
-        adm.add('set cur%d 1' % u)
-    bumps = sorted((t, u, i + 2) for u, url in enumerate(plan['urls']) for i, t in enumerate(url.get('bumps', [])))
+        adm.add('set cur%d %d' % (u, plan['urls'][u].get('first_ver', 1)))
+    bumps = sorted((t, u, plan['urls'][u].get('first_ver', 1) + i + 1) for u, url in enumerate(plan['urls']) for i, t in enumerate(url.get('bumps', [])))
     now = 0
     for t, u, v in bumps:
         adm.add('wait %d' % max(0, t - now)); now = max(now, t)
@@ -102,6 +103,8 @@ def build_world(prop, plan):
             if st.get('body') is not None:
                 body = st['body'].encode(); hdrs.append((b'Content-Length', b'%d' % len(body)))
             target = b'http://10.0.0.1/c%d' % st['u'] if 'target' not in st else st['target'].encode()
+            if st.get('after'):
+                cl.add('await %s' % st['after'])
             cl.add('send %s' % tok(hc.request_head(st.get('method', 'GET').encode(), target, hdrs) + body))
             cl.add('expect %s timeout 120000000' % ('response-nobody' if st.get('method') == 'HEAD' else 'response'))
     return scn, srv
